@@ -223,6 +223,14 @@ theorem C07_lock_holder_enabled (c b : Nat) (s : St) (h : Reach c b s) (hl : s.l
             · right; exact h0
           exact ⟨.loaderUnshift, by simp [step, hk, hin, hf], by simp⟩
 
+/-- the composite calls the driver performs in directed schedules (`Offer`, `Poll`, the loader wake-up and the
+    loader's advance to its next park point) are sequences of `step`s: they never leave the reachable states, so
+    every theorem above applies to every state the driver visits -/
+theorem C07_driver_ops_reachable (c b : Nat) (s : St) (h : Reach c b s) (v : Nat) :
+    Reach c b (offerCall s v).1 ∧ Reach c b (pollCall s).1 ∧ Reach c b (syncLoader s) ∧
+    Reach c b (loaderNext s).1 ∧ ∀ a, Reach c b (stepD s a) :=
+  ⟨reach_offerCall v h, reach_pollCall h, reach_syncLoader h, reach_loaderNext h, fun a => reach_stepD a h⟩
+
 /-! ### ChannelQueue's own wrappers (the channel substrate) -/
 
 /-- try-send: appended at the tail iff there is room; the buffer never exceeds the capacity -/
@@ -272,6 +280,13 @@ example : run (init 0 1) [.notify, .recvWait, .offerLock 7, .offerHandoff 7] =
 example : run (init 1 1) [.offerLock 1, .offerChan 1, .offerLock 2, .offerPool 2, .loaderWake, .loaderLock,
       .loaderPoll, .loaderUnshift, .tryRecv] =
     some ⟨1, 1, [], [2], none, false, .free, .waiting, 0, [1, 2], [1]⟩ := by decide
+
+/-- observation (not a violation of the property as stated): a consumer already blocked in `Take` (waiters = 1)
+    while the loader's pass found the channel full is not served until the NEXT Take/Poll/GetChannel call by
+    anyone posts a token — pool non-empty, channel empty, no token, loader asleep, lock free -/
+example : run (init 1 1) [.offerLock 1, .offerChan 1, .offerLock 2, .offerPool 2, .notify, .recvWait, .notify, .recvWait,
+      .loaderWake, .loaderLock, .loaderPoll, .loaderUnshift, .recvTake] =
+    some ⟨1, 1, [], [2], none, false, .free, .waiting, 1, [1, 2], [1]⟩ := by decide
 
 /-! ### closing theorems over data regenerated from queue.go on every run -/
 
